@@ -4,7 +4,7 @@ import re
 
 from ..core import AnalysisError, norm
 from ..flow import Effects, Exceptions
-from ..sim import simulate, check_reach, truthy_view
+from ..sim import simulate, check_reach, truthy_view, is_new_function
 
 _cache = {}
 
@@ -388,3 +388,112 @@ def paths_for_input(paths, env, texts=None, resolver=None):
         if ok:
             out.append(p)
     return out
+
+
+MEMO_DECORATORS = {'lru_cache', 'cache', 'cached_property', 'memoize', 'memoise', 'memoized', 'memoised'}
+
+
+def memoised_funcs(repo):
+    """production functions wrapped by a memoising decorator (functools.lru_cache / cache / cached_property, with or without arguments)"""
+    out = []
+    for g in repo.all_funcs():
+        if g.is_module_body:
+            continue
+        for d in g.node.decorator_list:
+            dn = d.func if isinstance(d, ast.Call) else d
+            if norm(dn).split('.')[-1] in MEMO_DECORATORS:
+                out.append(g)
+                break
+    return out
+
+
+def _mutable_family(repo, c):
+    """non-constructor writes (stores, deletes, container mutations) to attributes of class c, its bases or subclasses"""
+    ef = effects(repo)
+    fam = {k.qual for k in c.mro()} | {k.qual for k in repo.subclasses(c)}
+    out = []
+    for f, ws in ef.by_func.items():
+        for w in ws:
+            if not w.fresh and (w.owners & fam):
+                out.append(w)
+    return out
+
+
+def check_no_memoised_mutables(ctx, rule, roots, what):
+    """A memoised function hands the SAME object to every caller with equal arguments.  That is only transparent when the object is never
+    modified afterwards.  Every memoised function in the call closure of `roots` must return an immutable value: a str / number / bool /
+    None / tuple of those, or an instance of a class none of whose attributes is written outside its constructor anywhere in the
+    repository.  (Zero instances on the pinned tree: the positive example is the self-test's memoised `matcher.parse`.)"""
+    repo = ctx.repo
+    cg = repo.callgraph()
+    clo = cg.closure(roots)
+    n = 0
+    for g in memoised_funcs(repo):
+        if g not in clo:
+            continue
+        n += 1
+        types = set()
+        if g.node.returns is not None:
+            t = repo.ann_type(g.module, g.node.returns, g.cls)
+            if t:
+                types.add(t)
+        for x in g.body_nodes():
+            if isinstance(x, ast.Return) and x.value is not None:
+                types |= repo.expr_types(g, x.value)
+        bad = []
+
+        def walk(t, depth=0):
+            if t is None or depth > 4:
+                return
+            if t[0] == 'inst':
+                ws = _mutable_family(repo, t[1])
+                if ws:
+                    bad.append('%s objects are modified after construction (%s in %s)' % (t[1].name, norm(ws[0].stmt)[:60], ws[0].func.short))
+            elif t[0] in ('list', 'dict', 'set'):
+                bad.append('a %s is a mutable container' % t[0])
+            elif t[0] == 'tuple':
+                for x_ in (t[1] if isinstance(t[1], tuple) else ()):
+                    if isinstance(x_, tuple):
+                        walk(x_, depth + 1)
+        for t in types:
+            walk(t)
+        if not types:
+            bad.append('the type of the memoised value cannot be determined')
+        ctx.check(not bad, rule, 'memoised:%s' % g.qual, g.loc(), '%s is memoised and returns an immutable value' % g.short,
+                  '%s is memoised (%s) but %s: every caller with equal arguments receives the same object, so a modification made for one %s shows up in the others'
+                  % (g.short, norm(g.node.decorator_list[0])[:40], '; '.join(sorted(set(bad))[:2]), what))
+    return n
+
+
+def lift(ctx, rule, label, mod, prop, rules, why, key_filter=None, floor=1):
+    """Where one mechanism carries two properties, the findings of the rules that guard the mechanism are findings of both.
+    Runs property `prop`'s rule module on the same repository and re-reports the violations of `rules` (optionally only the instances
+    whose key passes key_filter) under `rule`; the number of obligations evaluated is the non-vacuity floor."""
+    from ..report import Ctx as _Ctx
+    sub = _Ctx(prop, ctx.repo, tier=ctx.tier, quiet=True)
+    mod.run(sub)
+    keep = lambda r, k: r in rules and (key_filter is None or key_filter(k))
+    n = len([o for o in sub.obligations if keep(o['rule'], o.get('stmt', ''))])
+    for v in sub.violations:
+        if keep(v['rule'], v['key']):
+            ctx.violation(rule, '%s:%s:%s' % (label, v['rule'], v['key']), v['site'], '%s (%s): %s' % (why, v['rule'], v['msg']), v['witness'])
+    ctx.check(True, rule, '%s:evaluated' % label, prop, '%s rules %s evaluated (%d obligations)' % (prop, '/'.join(rules), n))
+    ctx.floor(rule, n, floor, 'obligations lifted from %s' % '/'.join(rules))
+    return n
+
+
+def ms_to_s_term_ok(t, path, group_pattern):
+    """Is `t` (text of a term) float(<timestamp group, decimal comma turned into a point>) scaled by exactly 1/1000?  The comma may be
+    replaced unconditionally, or only on the paths where the group contains one (then the path must have decided `',' in <group>` False)."""
+    m = re.match(r"^float\((?P<tsgrp>(?:%s))(?P<tsrep>\.replace\(',', '\.'\))?\) (?:/ 1000(?:\.0*)?|\* (?:0\.001|1e-0?3))$" % group_pattern, t)
+    if not m:
+        return False
+    if m.group('tsrep'):
+        return True
+    g = m.group('tsgrp')
+    for a, v in path.decisions:
+        if a.text == "',' in %s" % g and v is False:
+            return True
+        if a.text == "',' not in %s" % g and v is True:
+            return True
+    return False
